@@ -146,10 +146,11 @@ func repeats(views []pageView, pi int, u unit, top bool, tolY, tolX int) bool {
 }
 
 type caseInfo struct {
-	Mode   string `json:"mode"`
-	Doc    Doc    `json:"doc"`
-	Subset []int  `json:"subset,omitempty"`
-	Excl   string `json:"excl,omitempty"`
+	Mode   string   `json:"mode"`
+	Doc    Doc      `json:"doc"`
+	Subset []int    `json:"subset,omitempty"`
+	Excl   string   `json:"excl,omitempty"`
+	Script []string `json:"script,omitempty"` // mode "seq": the call sequence run on the caller's own slices (seq.go)
 }
 
 func keptSet(ids []int) map[int]bool {
